@@ -52,6 +52,66 @@ class Ctx:
         return f
 
 
+def tree_is_confirmed(repo):
+    """is `repo` exactly the tree the rules' anchors and site counts were confirmed on (pv/confirmed_tree.txt: the commit,
+    with a clean working tree)?  On that tree a missing anchor or a count below its floor is an error of the checker and
+    fails the check (exit 2).  On any other tree - an edited working tree, a scratch copy - the same condition means the
+    code was restructured beyond what a rule can read, and the rule's clauses are reported undecided instead."""
+    try:
+        want = open(os.path.join(HERE, "pv", "confirmed_tree.txt")).read().split()[0]
+        import subprocess
+        head = subprocess.run(["git", "-C", repo, "rev-parse", "HEAD"], capture_output=True, text=True)
+        if head.returncode != 0 or head.stdout.strip() != want:
+            return False
+        st = subprocess.run(["git", "-C", repo, "status", "--porcelain", "--untracked-files=no"], capture_output=True, text=True)
+        return st.returncode == 0 and not st.stdout.strip()
+    except Exception:
+        return False
+
+
+def install_tolerance(ctx, mod):
+    """wrap the rule functions (those taking the context first) of the property module and of the shared rule modules: a rule
+    that cannot find its anchor function, or finds fewer sites than were confirmed by hand, adds one UNDECIDED obligation
+    naming what was missing and the other rules go on"""
+    import functools, inspect, types
+    from .props.common import simple_ob
+    names = ["tables", "lifecycle", "storage", "txn", "parsers", "layout", "escaping", "recheck", "effects"]
+    mods = [mod]
+    for n in names:
+        try:
+            mods.append(importlib.import_module("pv.props." + n))
+        except ImportError:
+            pass
+    for pm in list(sys.modules.values()):
+        if getattr(pm, "__name__", "").startswith("pv.props.C") and pm not in mods:
+            mods.append(pm)
+
+    def wrap(f):
+        @functools.wraps(f)
+        def g(*a, **k):
+            try:
+                return f(*a, **k)
+            except Exception as e:
+                c = a[0] if a and isinstance(a[0], Ctx) else ctx
+                anyfn = sorted(c.F.fns)[0]
+                c.add(simple_ob("S-ANCHOR", anyfn, "rule-not-applicable", "%s: %s" % (f.__name__, str(e)[:90]),
+                                {"f": "?", "l": 0, "c": 0, "l2": 0}, UNDECIDED,
+                                "the code no longer has the shape this rule reads (%s): its clauses are not decided on this tree" % e))
+                return None
+        g._pv_wrapped = True
+        return g
+    for pm in mods:
+        for name, f in list(vars(pm).items()):
+            if isinstance(f, types.FunctionType) and f.__module__ == pm.__name__ and name != "run" and \
+                    not getattr(f, "_pv_wrapped", False):
+                try:
+                    params = list(inspect.signature(f).parameters)
+                except (TypeError, ValueError):
+                    continue
+                if params and params[0] == "ctx":
+                    setattr(pm, name, wrap(f))
+
+
 def load_known(prop):
     known, fixed = {}, []
     p = os.path.join(HERE, "known_findings.txt")
@@ -100,7 +160,20 @@ def run(prop, tier="quick", replay=None, facts_dir=None, repo="/repo", write_evi
                 raise AnalysisError("no functions extracted for %s" % c)
         ctx = Ctx(F, tier, prop)
         mod = importlib.import_module("pv.props." + prop)
-        mod.run(ctx)
+        if not tree_is_confirmed(repo):
+            install_tolerance(ctx, mod)
+            try:
+                mod.run(ctx)
+            except Exception as e:
+                # the property's own driver lost an anchor (or a skipped rule's result): what was decided so far stands,
+                # the rest is not decided on this tree
+                from .props.common import simple_ob
+                ctx.add(simple_ob("S-ANCHOR", sorted(F.fns)[0], "property-rules-not-applicable", "%s: %s" % (prop, str(e)[:90]),
+                                  {"f": "?", "l": 0, "c": 0, "l2": 0}, UNDECIDED,
+                                  "the code no longer has the shape the rules of %s read (%s): the remaining clauses are not "
+                                  "decided on this tree" % (prop, e)))
+        else:
+            mod.run(ctx)
         obs = ctx.obs
         if replay:
             want = set(json.load(open(replay)).get("keys", []))
